@@ -137,8 +137,8 @@ class Scenario:
     """One execution: scheduler + net + a node + the scripted peer.  Use as a context manager."""
 
     def __init__(self, seed=0, strategy="rr", p=0.2, role="client", apps=(), watchdog=30, lines=False,
-                 max_steps=400_000, replay=None, pct_depth=3, guard=True):
-        self.sched = vsched.Sched(seed=seed, strategy=strategy, p=p, max_steps=max_steps, replay=replay, pct_depth=pct_depth)
+                 max_steps=400_000, replay=None, pct_depth=3, guard=True, wall_s=60):
+        self.sched = vsched.Sched(seed=seed, strategy=strategy, p=p, max_steps=max_steps, replay=replay, pct_depth=pct_depth, wall_s=wall_s)
         self.net = vnet.Net(self.sched)
         self.role = role
         self.apps = list(apps)
